@@ -554,3 +554,18 @@ def _finite_float(self, name, f):
 
 SymH.finite = _finite_sym
 FloatH.finite = _finite_float
+
+
+def _assume_eq_sym(self, a, b, text=""):
+    a, b = S.lift(a), S.lift(b)
+    l, r = core.qeq_terms(a.v, b.v)
+    CTX.assumes.append(core.term(l) == core.term(r))
+
+
+def _assume_eq_float(self, a, b, text=""):
+    if not abs(float(a) - float(b)) <= 1e-8 * max(1.0, abs(float(a)), abs(float(b))):
+        self.assumption_failed.append(text or "assumed equality")
+
+
+SymH.assume_eq = _assume_eq_sym
+FloatH.assume_eq = _assume_eq_float
